@@ -95,7 +95,7 @@ impl Prop for C07 {
     fn budget(tier: Tier) -> Budget {
         match tier {
             Tier::Quick => Budget { cases: 48000, shards: 16 },
-            Tier::Thorough => Budget { cases: 384000, shards: 16 },
+            Tier::Thorough => Budget { cases: 2688000, shards: 16 },
         }
     }
 
